@@ -354,14 +354,16 @@ Definition plain_op (o : op) : Prop :=
   match o with
   | Create _ chs _ over => over = false /\ zero_keys chs   (* no overwrite; callers do not pass local keys *)
   | Rename _ keys _ => NoDup keys                            (* every key listed once *)
+  | CreatePair _ a b => zero_keys a /\ zero_keys b
+  | FaultedCreate _ _ _ | FaultedRename _ _ _ _ => False     (* never succeed: see the next theorem *)
   | _ => True
   end.
 
 Theorem step_Cons validate s o s' out :
   Inv s -> Cons s -> op_wf s o -> plain_op o -> step true validate s o = (s', (EOk, out)) -> Cons s'.
 Proof.
-  intros I C Hwf Hp. destruct o as [gw chs retr over|gw keys names|gw keys|gw names|n|n free delta];
-    unfold op_wf in Hwf; cbn [gateway_of] in Hwf; cbn [step plain_op] in *.
+  intros I C Hwf Hp. destruct o as [gw chs retr over|gw keys names|gw keys|gw names|n|n free delta|gw a b|n gw chs|n gw keys names];
+    unfold op_wf in Hwf; cbn [gateway_of] in Hwf; cbn [step plain_op] in *; try contradiction.
   - destruct Hp as [-> Hz]. apply create_cons; try assumption. reflexivity.
   - apply rename_keys_cons; assumption.
   - intros H. apply (delete_keys_cons _ _ _ _ _ I C Hwf H).
@@ -373,6 +375,33 @@ Proof.
       destruct C as [A B]. constructor; [exact A|exact B].
     + destruct (ctr_add _ delta); [intros [= <- _]|discriminate].
       destruct C as [A B]. constructor; [exact A|exact B].
+  - destruct Hp as [Ha Hb].
+    destruct (create true validate gw s a (COpts false false)) as [s1 [e1 o1]] eqn:E1.
+    destruct (negb (is_ok e1)) eqn:Eo1; [intros [= _ -> _]; discriminate|]. apply is_ok_false in Eo1. subst e1.
+    pose proof (create_ext _ _ _ _ _ _ _ I Hwf E1) as X1.
+    assert (C1 : Cons s1) by (apply (create_cons validate gw s a (COpts false false) s1 o1 I C Hwf eq_refl Ha E1)).
+    destruct (create true validate gw s1 b (COpts false false)) as [s2 [e2 o2]] eqn:E2.
+    destruct (negb (is_ok e2)) eqn:Eo2; [intros [= _ -> _]; discriminate|]. apply is_ok_false in Eo2. subst e2.
+    intros [= <- _].
+    apply (create_cons validate gw s1 b (COpts false false) s2 o2 (Inv_ext _ _ I X1) C1 (proj2 (ext_nodes _ _ X1 gw) Hwf) eq_refl Hb E2).
+Qed.
+
+(* a request hit by a storage fault (the engine cannot persist a channel's meta file), in the
+   situations the model decides (every entry leased to the faulty node, the request otherwise
+   acceptable — anything else is flagged [s_amb]): it fails and leaves every metadata row and every
+   engine exactly as they were; only counters may have moved *)
+Theorem faulted_no_effect validate s o s' r :
+  match o with FaultedCreate _ _ _ | FaultedRename _ _ _ _ => True | _ => False end ->
+  step true validate s o = (s', r) -> s_amb s' = false ->
+  r.1 = EFault /\ s_tab s' = s_tab s /\ s_eng s' = s_eng s.
+Proof.
+  destruct o as [| | | | | | |n gw chs|n gw keys names]; try contradiction; intros _; cbn [step].
+  - destruct (create true validate gw s chs (COpts false false)) as [s1 [e1 o1]].
+    destruct (is_ok e1 && all_leased_to n gw chs && is_node s n); intros [= <- <-]; [auto|].
+    cbn. rewrite orb_true_r. discriminate.
+  - destruct (rename_keys true validate gw s keys names) as [s1 [e1 o1]].
+    destruct (is_ok e1 && _); intros [= <- <-]; [auto|].
+    cbn. rewrite orb_true_r. discriminate.
 Qed.
 
 (* after a successful delete the listed keys are in use nowhere *)
